@@ -213,6 +213,11 @@ def gen_track(rng, ppq, n_events, wf=True):
             else:
                 evs.append((7, ch, delta, note, rng.randint(1, 127), None, None, None, None, None))
                 open_[(ch, note)] = True
+        elif k < 0.5 and not wf and rng.random() < 0.5:
+            # ill-formed track: a stray note-off for a key that is not sounding (per-track normalise drops it)
+            cand = [(c, n) for c in range(2) for n in range(58, 65) if (c, n) not in open_]
+            c2, note = rng.choice(cand)
+            evs.append((6, c2, delta, note, 0, None, None, None, None, None))
         elif k < 0.7 and open_:
             (c2, note) = rng.choice(sorted(open_))
             del open_[(c2, note)]
@@ -228,6 +233,8 @@ def gen_track(rng, ppq, n_events, wf=True):
         else:
             evs.append((1, None, delta, None, None, None, None, None, None, None))
     for (c2, note) in sorted(open_):
+        if not wf and rng.random() < 0.5:
+            continue          # ill-formed track: the note is never closed (per-track normalise removes it)
         evs.append((6, c2, rng.choice([1, ppq]), note, 0, None, None, None, None, None))
     return evs
 
@@ -244,7 +251,9 @@ def generate(ctx):
         ppq = rng.choice([1, 7, 24, 48, 96, 100, 480, 960, 997, 32767])
         nt = rng.randint(1, 4)
         long_ = rng.random() < 0.15
-        tracks = [gen_track(rng, ppq, rng.randint(0, 60 if long_ else 10)) for _ in range(nt)]
+        tracks = [gen_track(rng, ppq, rng.randint(0, 60 if long_ else 10), wf=rng.random() < 0.7) for _ in range(nt)]
+        if any(wf_violations([(0, (6 if (e[0] == 7 and e[4] == 0) else e[0], e[1], None, e[3])) for e in t if e[0] in (6, 7)]) for t in tracks):
+            ctx.count("ill-formed-track")
         idx = list(range(nt))
         mode = rng.random()
         if mode < 0.4:
